@@ -2130,6 +2130,135 @@ def k_history(ctx: Ctx, n_cases: int):
         run_history_case(ctx, gen_history_case(ctx.rng))
 
 
+# ---------------------------------------------------------------------------
+# K6: the estimate is for the operator AS ASKED — the caller's operator object is changed between obtaining the Estimate and the
+#     first read of `.value` / `.error`
+# ---------------------------------------------------------------------------
+KEY_LIVE = "estimate-follows-later-operator-mutation"
+LIVE_ENTRIES = ["sampling_estimate", "create_sampling_estimator", "concurrent_sampling_estimate", "create_sampling_concurrent_estimator",
+                "create_general_sampling_estimator", "create_general_sampling_estimator:sequences", "get_estimate_from_sampling_result"]
+LIVE_MUTATIONS = ["change_coefficient", "add_term", "add_measured_term_back", "remove_term", "set_constant", "clear", "scale_all"]
+
+
+def gen_live_case(rng, entry, mutation, order):
+    n = rng.randint(1, 3)
+    terms = gen_plain_terms(rng, n)
+    if mutation == "add_measured_term_back" and len([t for t in terms if t[0]]) < 2:
+        mutation = "change_coefficient"
+    return {"kernel": "live_op", "entry": entry, "mutation": mutation, "order": order, "n": n, "terms": terms,
+            "other_terms": gen_plain_terms(rng, n), "gates": gen_state(rng, n, True), "form": rng.choice(["general", "cb"]), "bits": rng.getrandbits(n),
+            "fkind": rng.choice(["bitwise", "individual"]), "akind": rng.choice(["equi", "prop"]), "gform": rng.choice(GFORMS), "total": 4096,
+            "which": rng.randrange(8), "new_coef": rng.choice([7.0, -3.5, 0.0, 2.5 + 1.0j])}
+
+
+def _live_obtain(spec, mutate):
+    """obtain the Estimate(s) for `terms` through the entry point, optionally change the caller's operator object, then read; returns
+    (value, error, session)"""
+    import warnings
+
+    import quri_parts.core.estimator.sampling as ES
+    from quri_parts.core.estimator.sampling import estimator_helpers as EH
+    from quri_parts.core.operator import PAULI_IDENTITY, pauli_label
+
+    n, T, entry = spec["n"], spec["total"], spec["entry"]
+    ses = Session(spec["fkind"], spec["akind"], 1, None, spec.get("gform"))
+    op = _mk_op(spec["terms"])
+    other = _mk_op(spec["other_terms"])
+    state, _ = _mk_state(n, spec["gates"], spec["form"], spec["bits"])
+    args = (T, ses.sampler, ses.factory, ses.allocator)
+    if entry == "sampling_estimate":
+        est = ES.sampling_estimate(op, state, *args)
+    elif entry == "create_sampling_estimator":
+        est = ES.create_sampling_estimator(*args)(op, state)
+    elif entry == "concurrent_sampling_estimate":
+        est = list(ES.concurrent_sampling_estimate([other, op], [state, state], *args))[1]
+    elif entry == "create_sampling_concurrent_estimator":
+        est = list(ES.create_sampling_concurrent_estimator(*args)([op, other], [state]))[0]
+    elif entry == "create_general_sampling_estimator":
+        est = ES.create_general_sampling_estimator(*args)(op, state)
+    elif entry == "create_general_sampling_estimator:sequences":
+        est = list(ES.create_general_sampling_estimator(*args)([op], [state, state]))[1]
+    else:
+        ms = [m for m in ses.factory(op) if m.pauli_set != {PAULI_IDENTITY}]
+        sm = EH.distribute_shots_among_pauli_sets(op, ms, ses.allocator, T)
+        ms = [m for m in ms if sm[m.pauli_set] > 0]
+        est = ES.get_estimate_from_sampling_result(op, ms, op.constant, ses.sampler(EH.get_sampling_circuits_and_shots(state, ms, sm)))
+    if mutate:
+        labels = [lbl for lbl in op if lbl != PAULI_IDENTITY]
+        victim = labels[spec["which"] % len(labels)]
+        m = spec["mutation"]
+        if m == "change_coefficient":
+            op[victim] = spec["new_coef"]
+        elif m == "add_term":
+            op[pauli_label(f"Z{n + 3}")] = 5.0
+        elif m == "add_measured_term_back":  # remove one measured term, overwrite another
+            del op[victim]
+            op[labels[(spec["which"] + 1) % len(labels)]] = spec["new_coef"]
+        elif m == "remove_term":
+            del op[victim]
+        elif m == "set_constant":
+            op.constant = 123.0
+        elif m == "clear":
+            op.clear()
+        else:
+            for lbl in list(op):
+                op[lbl] = op[lbl] * -3.0
+    with warnings.catch_warnings():
+        warnings.simplefilter("ignore")
+        if spec["order"] == "error_first":
+            err = est.error
+            val = complex(est.value)
+        else:
+            val = complex(est.value)
+            err = est.error
+    return val, err, ses
+
+
+def run_live_case(ctx: Ctx, spec):
+    _, gates = _mk_state(spec["n"], spec["gates"], spec["form"], spec["bits"])
+    want = exact_expectation(spec["n"], gates, spec["terms"])  # from the snapshot of the terms, taken before any call
+    scale = 1.0 + sum(abs(complex(*c)) for _, c in spec["terms"])
+    res = {}
+    for tag, mutate in (("untouched", False), ("mutated", True)):
+        try:
+            v, e, ses = _live_obtain(spec, mutate)
+            res[tag] = ("ok", v, e, ses.all_groups_sampled())
+        except Exception as ex:  # noqa: BLE001
+            res[tag] = ("err", exc_name(ex), None, True)
+    ctx.traces += 1
+    ctx.case(("live", canon_spec(spec)), nontrivial=res["mutated"][0] == "ok")
+    ctx.count("live_operator", f"{spec['entry']}/{spec['mutation']}/{spec['order']}")
+    u, m = res["untouched"], res["mutated"]
+    if u[0] != "ok" or not u[3]:
+        if u[0] != "ok":
+            ctx.witness("sampling_estimate.raises", f"ideal sampling, {spec['entry']} raises {u[1]}", spec, {"demanded": str(want)})
+        return
+    if not abs(u[1] - want) <= ORACLE_RTOL * scale:
+        ctx.witness("sampling_estimate.value", f"ideal sampling, every group sampled, {spec['entry']}: the estimate is not the exact expectation", spec,
+                    {"real": str(u[1]), "demanded": str(want)})
+        return
+    bad = None
+    if m[0] != "ok":
+        bad = f"reading the estimate raises {m[1]}"
+    elif not abs(m[1] - want) <= ORACLE_RTOL * scale:
+        bad = f"value {m[1]} instead of {want}"
+    elif not (m[2] == u[2] or abs(m[2] - u[2]) <= 1e-12 * (1.0 + abs(u[2])) or (m[2] != m[2] and u[2] != u[2])):
+        bad = f"error {m[2]} instead of {u[2]} (the same estimate read without touching the operator)"
+    if bad:
+        ctx.witness(KEY_LIVE, f"the caller's operator object is changed ({spec['mutation']}) after {spec['entry']} returned and before the first read "
+                    f"({spec['order']}): {bad} — the estimate must be that of the operator as asked", spec,
+                    {"mutated": str(m[:3]), "untouched": str(u[:3]), "demanded_value": str(want)})
+
+
+def k_live_operator(ctx: Ctx):
+    """always run: every entry point × every kind of later change × both read orders"""
+    for entry in LIVE_ENTRIES:
+        for mutation in LIVE_MUTATIONS:
+            for order in ("value_first", "error_first"):
+                for _ in range(ctx.n(1, 6)):
+                    run_live_case(ctx, gen_live_case(ctx.rng, entry, mutation, order))
+
+
 def k_rejects(ctx: Ctx):
     """rejection side: an observable wider than the state is refused before anything is sampled — an Operator or a bare label, through
     every entry point"""
@@ -2215,6 +2344,8 @@ def run(ctx: Ctx, replay=None) -> int:
                 run_concurrent_case(ctx, spec)
             elif isinstance(spec, dict) and spec.get("kernel") == "history":
                 run_history_case(ctx, spec)
+            elif isinstance(spec, dict) and spec.get("kernel") == "live_op":
+                run_live_case(ctx, spec)
             elif isinstance(spec, dict) and spec.get("big"):
                 run_size_case(ctx, spec, mode)
             elif isinstance(spec, dict) and "state" in spec:
@@ -2243,6 +2374,7 @@ def run(ctx: Ctx, replay=None) -> int:
         k_history(ctx, ctx.n(250, 2000))
         k_rejects(ctx)
         k_oneshot_groups(ctx)
+        k_live_operator(ctx)
     broken = bool(ctx.failed_obligations or ctx.disagreements)
     if broken:
         with ctx.timed("oracle_search"):
